@@ -931,7 +931,30 @@ pub fn run(ctx: &Ctx) -> Report {
     let mut model = Model::spawn();
     let mut rng = Rng::new(ctx.seed);
     if CONSTS.scaled {
-        rep.notes.push("C06 is about the published constants: nothing is run at scaled constants".into());
+        // C06 is about the published constants; the one thing run at scaled constants is the nonce rule for chunk
+        // indices that need the third byte of the counter (65536 chunks are 8 GiB at 128 KiB, 1–4 MiB here)
+        if ctx.replay.is_none() || ctx.replay.as_ref().map(|r| r["case"]["note"].as_str().map(|n| n.starts_with("65538")).unwrap_or(false)).unwrap_or(false) {
+            let cfg = Cfg::make(&mut rng, L_ENC);
+            let n = 65538 * CONSTS.chunk + 3;
+            let ops = vec![Op::Add { name: "big".into(), size: n as u64, src: rng.bytes(n, 3) }, Op::Finalize];
+            let b = build(&cfg, &ops);
+            rep.eval(fnv(b"nonce-counter-third-byte"), true);
+            let spec = spec_of(&ops, &b.results);
+            let ok = match peel(&b.bytes, &cfg) {
+                Ok(inner) => {
+                    let m = read_all(&[&b"MLA\x01\x00\x00\x00\x00\x00"[..], &inner[..]].concat(), &Cfg::plain());
+                    m.map(|g| g.get("big").map(|f| f.content.as_ref().ok() == spec.get("big")).unwrap_or(false)).unwrap_or(false)
+                }
+                Err(_) => false,
+            };
+            if !ok {
+                rep.violation("oracle", "C06/dir1/decode", json!({"what":"chunk-index-above-65535"}),
+                    "an archive of more than 65536 chunks is not decoded by the reference implementation of the format (nonce = archive nonce ‖ be32(chunk index))",
+                    json!({"kind":"dir1","cfg":cfg.to_json(),"note":"65538 chunks, encrypt only, scaled chunk size"}));
+            }
+            rep.count("dir1:65538-chunks");
+        }
+        rep.notes.push("C06 is about the published constants: only the nonce rule for chunk indices ≥ 65536 is run at scaled constants".into());
         return rep;
     }
     if let Some(r) = &ctx.replay {
@@ -1013,11 +1036,12 @@ pub fn run(ctx: &Ctx) -> Report {
         if rep.full() { break; }
     }
     // chunk indices beyond one byte of the nonce counter (more than 256 chunks = 32 MiB): decoded with the
-    // reference crates only (the list-based model would need gigabytes); thorough tier
-    if ctx.thorough {
+    // reference crates only (the list-based model would need gigabytes); both tiers
+    {
         let cfg = Cfg::make(&mut r1, L_ENC);
         let n = 258 * CONSTS.chunk + 77;
         let ops = vec![Op::Add { name: "big".into(), size: n as u64, src: r1.bytes(n, 3) }, Op::Finalize];
+        let t258 = std::time::Instant::now();
         let b = build(&cfg, &ops);
         rep.eval(fnv(b"nonce-counter-second-byte"), true);
         let spec = spec_of(&ops, &b.results);
@@ -1034,6 +1058,7 @@ pub fn run(ctx: &Ctx) -> Report {
                 json!({"kind":"dir1","cfg":cfg.to_json(),"note":"258 chunks, encrypt only"}));
         }
         rep.count("dir1:258-chunks");
+        rep.measurements.insert("chunks258_s".into(), json!(t258.elapsed().as_secs_f64()));
     }
     // the constants the model was written with
     let k = model.call(json!({"cmd":"format.consts"}));
